@@ -33,6 +33,7 @@ pub fn gen_cov_case(rng: &mut Rng, tier: &str, prop: &str) -> Case {
             dup_id_pct: 0,
             mega_1_in: 0,
             twin_mega_1_in: 30000,
+            many_1_in: 1500,
     };
     let records = g.gen(rng);
     let container = gen_container(rng, &records, false, true);
